@@ -12,6 +12,7 @@ import (
 	"encoding/json"
 	"flag"
 	"fmt"
+	"io"
 	"math/rand/v2"
 	"os"
 	"runtime/debug"
@@ -465,5 +466,54 @@ func Frame(parts ...[]byte) (slices [][]byte, check func() string) {
 			}
 		}
 		return ""
+	}
+}
+
+// Chunked wraps a reader so that each Read delivers at most n bytes; DataEOF delivers everything it has in one
+// Read together with io.EOF. Both are within the io.Reader contract: an API that consumes k bytes of entropy must get
+// the same k bytes from them as from a reader that fills the buffer at once.
+type chunked struct {
+	r io.Reader
+	n int
+}
+
+func (c *chunked) Read(p []byte) (int, error) {
+	if len(p) > c.n {
+		p = p[:c.n]
+	}
+	return c.r.Read(p)
+}
+
+func Chunked(r io.Reader, n int) io.Reader { return &chunked{r, n} }
+
+type dataEOF struct {
+	b    []byte
+	done bool
+}
+
+func (d *dataEOF) Read(p []byte) (int, error) {
+	if d.done {
+		return 0, io.EOF
+	}
+	n := copy(p, d.b)
+	d.b = d.b[n:]
+	if len(d.b) == 0 {
+		d.done = true
+		return n, io.EOF
+	}
+	return n, nil
+}
+
+func DataEOF(b []byte) io.Reader { return &dataEOF{b: append([]byte{}, b...)} }
+
+// Readers returns the same byte string behind differently behaving readers (full, 1-, 7- and 31-byte chunks,
+// data+EOF), with a label each.
+func Readers(b []byte) map[string]func() io.Reader {
+	return map[string]func() io.Reader{
+		"full":     func() io.Reader { return bytes.NewReader(b) },
+		"1-byte":   func() io.Reader { return Chunked(bytes.NewReader(b), 1) },
+		"7-byte":   func() io.Reader { return Chunked(bytes.NewReader(b), 7) },
+		"31-byte":  func() io.Reader { return Chunked(bytes.NewReader(b), 31) },
+		"data+EOF": func() io.Reader { return DataEOF(b) },
 	}
 }
